@@ -10,7 +10,7 @@
                       dir hidden fork nested unsup oversize symlink hardlink chardev fifo    skip kinds
                       linkPrev symPrev    tar hard / symbolic link whose target is the PRECEDING member
                                           (the host-targeted symlink / hardlink kinds name a canary host file)
-                nc    name class:  plain nested unicode | absolute dotdot dotdotIn backslash drive empty
+                nc    name class:  plain nested unicode dotslash | absolute dotdot dotdotIn backslash drive empty
                       long hostname      (POSIX host: backslash and drive letters are ordinary characters)
      consumer = Exhaust | CloseAfter(k) | Abandon(k) | Throw(k)      (hist; executed literally by the binding)
      state    = gen   fresh | running | suspended | exhausted | closed | failed | collected
@@ -67,7 +67,7 @@ LinkPrev    == {"linkPrev", "symPrev"}
 SkipKinds   == {"dir", "hidden", "fork", "nested", "unsup", "oversize", "symlink", "hardlink", "chardev", "fifo"}
                \cup LinkPrev
 TarOnly     == {"symlink", "hardlink", "chardev", "fifo"} \cup LinkPrev
-BenignNC    == {"plain", "nested", "unicode"}
+BenignNC    == {"plain", "nested", "unicode", "dotslash"}   \* dotslash: ./name, ./dir/name, dir/./name (tar czf x.tgz .)
 HostileNC   == {"absolute", "dotdot", "dotdotIn", "backslash", "drive", "empty", "long", "hostname"}
 Classes     == {"InsideTmp", "TmpRootItself", "Outside"}
 Finished    == {"exhausted", "closed", "failed", "collected"}
@@ -113,7 +113,7 @@ MT_C09 == ({"doc"} \X (BenignNC \cup HostileNC))
           \cup ({"nostream"} \X {"plain", "absolute", "dotdot"})
           \cup ({"emptyFile"} \X {"plain", "absolute"})
           \cup ((SkipKinds \ {"dir"}) \X {"plain"}) \cup {<<"dir", "nested">>, <<"hidden", "nested">>}
-MT_C09s == ({"doc"} \X {"plain", "nested", "absolute", "dotdot", "empty", "long"})      \* representatives
+MT_C09s == ({"doc"} \X {"plain", "nested", "dotslash", "absolute", "dotdot", "empty", "long"})      \* representatives
           \cup ({"nostream"} \X {"plain", "absolute"})
           \cup ({"hidden", "fork", "nested", "unsup", "oversize", "symlink", "fifo", "linkPrev"} \X {"plain"})
           \cup {<<"hidden", "nested">>}
